@@ -294,9 +294,14 @@ def glob_run(sub_a, sub_b, patterns, api_kw):
     try:
         srv = RS.RefSFTP(loop, extensions=[])
         srv.trailing_slash_ok = True
-        srv.dirs[b'/dir'] = [(b'a', 'd', None), (b'b', 'd', None)]
+        # like every real server, this one lists '.' and '..'
+        dots = [(b'.', 'd', None), (b'..', 'd', None)]
+        srv.dirs[b'/'] = dots + [(b'dir', 'd', None), (b'rootfile', 'f', None)]
+        srv.put_file(b'/rootfile', b'ROOT')
+        srv.dirs[b'/dir'] = dots + [(b'a', 'd', None), (b'b', 'd', None), (b'dirfile', 'f', None)]
+        srv.put_file(b'/dir/dirfile', b'DIRFILE')
         for d, (name, kind) in ((b'/dir/a', sub_a), (b'/dir/b', sub_b)):
-            srv.dirs[d] = [(name, kind, None)]
+            srv.dirs[d] = dots + [(name, kind, None)]
             path = d + b'/' + name
             if kind == 'l':
                 srv.links[path] = b'../../outside-target'
@@ -383,6 +388,11 @@ def glob_jobs():
                         cases.append(((b'n', ka), (name_b, kb), patterns, kwname))
             # a source named with a trailing slash (or '/.') is copied INTO the destination: its entries meet what
             # an earlier source left there
+            # hidden-file patterns next to ordinary ones over the same directories (the listing has '.' and '..')
+            for patterns in ([b'/dir/a/*', b'/dir/a/.*'], [b'/dir/*', b'/dir/.*'], [b'/dir/a/.*', b'/dir/a/.*'], [b'/dir/a/.*'], [b'/dir/*/.*', b'/dir/a/*', b'/dir/a/.*'],
+                             [b'/dir/a/n', b'/dir/a/?*', b'/dir/a/.?']):
+                for kwname in ('plain', 'errhandler'):
+                    cases.append(((b'n', ka), (b'n', kb), patterns, kwname))
             for patterns in ([b'/dir/a/n', b'/dir/b/'], [b'/dir/a/n', b'/dir/b/.'], [b'/dir/a/*', b'/dir/b/'], [b'/dir/b/', b'/dir/a/n'],
                              [b'/dir/a/', b'/dir/b/'], [b'/dir/a/.', b'/dir/b/.']):
                 for kwname in ('plain', 'preserve', 'get-list', 'get-list-preserve'):
